@@ -143,8 +143,10 @@ class FuncInfo:
 
     def is_property(self):
         for d in getattr(self.node, "decorator_list", []):
-            if isinstance(d, ast.Name) and d.id == "property":
+            if isinstance(d, ast.Name) and d.id in ("property", "cached_property"):
                 return True
+            if isinstance(d, ast.Attribute) and d.attr == "cached_property":
+                return True                     # functools.cached_property: read like a property
             if isinstance(d, ast.Attribute) and d.attr in ("setter", "getter"):
                 return False
         return False
